@@ -231,6 +231,7 @@ type BlobMaster struct {
 	blobs              map[string][]byte
 	blobReads          int64
 	batchDeleted       int64
+	assignCalls        int64
 	collectionsDeleted []string
 	stop               []func()
 }
@@ -258,6 +259,17 @@ func (b *BlobMaster) KeepConnected(stream master_pb.Seaweed_KeepConnectedServer)
 	}
 	<-stream.Context().Done()
 	return nil
+}
+
+// Assign never answers: the only caller in these drivers is the filer's metadata-log
+// flush (once a minute per Filer). An error answer would make the shared cached gRPC
+// connection to the master be closed after a few failures (pb.WithCachedGrpcClient),
+// breaking every KeepConnected stream of the process; a success would make the filer
+// write its log files into the namespace under test. The flush goroutine just waits.
+func (b *BlobMaster) Assign(ctx context.Context, req *master_pb.AssignRequest) (*master_pb.AssignResponse, error) {
+	atomic.AddInt64(&b.assignCalls, 1)
+	<-ctx.Done()
+	return nil, ctx.Err()
 }
 
 func (b *BlobMaster) CollectionDelete(ctx context.Context, req *master_pb.CollectionDeleteRequest) (*master_pb.CollectionDeleteResponse, error) {
@@ -390,6 +402,10 @@ type FilerWorld struct {
 	Filer *filer.Filer
 	FS    *weed_server.FilerServer
 	BM    *BlobMaster
+
+	// ListUnderFiles makes Dump also list below file entries (an entry below a file
+	// outside the probed universe would otherwise be missed); costs one store listing per file.
+	ListUnderFiles bool
 }
 
 // NewFilerWorld opens a fresh store of the given kind in a scratch directory and
@@ -419,12 +435,12 @@ func NewFilerWorld(r *Run, kind string, bm *BlobMaster) *FilerWorld {
 	w.Filer = f
 	w.FS = weed_server.VerifNewFilerServer(f, &weed_server.FilerOption{DirListingLimit: 100000, MaxMB: 4}, false, grpc.WithInsecure())
 	ok := false
-	for i := 0; i < 600; i++ {
+	for i := 0; i < 6000; i++ {
 		if _, found := f.MasterClient.GetLocations(bm.Vid); found {
 			ok = true
 			break
 		}
-		time.Sleep(50 * time.Millisecond)
+		time.Sleep(5 * time.Millisecond)
 	}
 	if !ok {
 		r.Must(errors.New("filer master client never received the volume location from the fake master"), "NewFilerWorld")
@@ -452,8 +468,9 @@ func (d *TreeDump) Paths() []string {
 }
 
 // Dump collects every entry that FindEntry shows for a universe path plus everything
-// reachable by listing "/" and every entry found (files included: a file with
-// children is a malformed tree). The call budget must be off.
+// reachable by listing "/" and every directory found (with ListUnderFiles also every
+// file: a file with children is a malformed tree; children of files that are universe
+// paths are found by the probes anyway). The call budget must be off.
 func (w *FilerWorld) Dump(universe []string) *TreeDump {
 	ctx := context.Background()
 	d := &TreeDump{Found: make(map[string]*filer.Entry), Listed: make(map[string]*filer.Entry)}
@@ -464,7 +481,9 @@ func (w *FilerWorld) Dump(universe []string) *TreeDump {
 		}
 		if e, err := w.Filer.FindEntry(ctx, util.FullPath(p)); err == nil && e != nil {
 			d.Found[p] = e
-			work = append(work, p)
+			if e.IsDirectory() || w.ListUnderFiles {
+				work = append(work, p)
+			}
 		}
 	}
 	work = append(work, "/")
@@ -487,7 +506,9 @@ func (w *FilerWorld) Dump(universe []string) *TreeDump {
 				e = le
 			}
 			d.Found[cp] = e
-			work = append(work, cp)
+			if e.IsDirectory() || w.ListUnderFiles {
+				work = append(work, cp)
+			}
 		}
 	}
 	return d
